@@ -107,6 +107,22 @@ func solve(o *Obligation, dir string, timeout int) *SolveResult {
 	var grace <-chan time.Time
 	finish := func() *SolveResult {
 		cancel()
+		if res.Status == "discharged" && !o.Cover {
+			// vacuity guard: the assumptions under which the goal was proved must themselves be satisfiable
+			// (a contradictory assumption - of a contract or of the engine - would prove anything)
+			o2 := *o
+			o2.consistencyOnly = true
+			cf := base + ".consistency.smt2"
+			os.WriteFile(cf, []byte(o2.Text("z3new")), 0644)
+			st, _, _ := runSolver(context.Background(), solvers[1], cf, 10)
+			if st == "unsat" {
+				st2, _, _ := runSolver(context.Background(), solvers[2], base+".consistency.smt2", 10)
+				if st2 != "sat" {
+					res.Status = "vacuous"
+					res.Detail = "the assumptions of this obligation are unsatisfiable on their own"
+				}
+			}
+		}
 		return res
 	}
 	for i := 0; i < len(solvers); {
